@@ -106,6 +106,7 @@ def run(ctx, rep):
               "helpers disagree on which operand is the slow index: %s" % [(h.name, o) for h, _, o in orders])
     # ---- O4: MProcess on State probabilities
     _o4_probability(ctx, rep)
+    _o4_weight_after_normalisation(ctx, rep)
     # ---- S1: Povm.generate_mprocess
     g = ix.func("quara.objects.povm.Povm.generate_mprocess")
     fs = spectral.check(g) + spectral.outer_products(g)
@@ -248,6 +249,53 @@ def _o4_probability(ctx, rep):
                   "the post-measurement state is not the unnormalised state divided by its own probability (%s)" % ", ".join(unparse(x) for x in divs),
                   node=divs[0])
 
+
+
+def _o4_weight_after_normalisation(ctx, rep):
+    """the probabilities returned for one branch of an ensemble are (branch weight) x (conditional probabilities, renormalised after
+    truncation): the renormalisation must act on the conditional probabilities, not on the weighted ones (which would make every
+    truncated branch sum to 1 instead of to its weight)"""
+    from ..symsum import cases, returning
+    h = ctx.ix.func(OP + "_compose_qoperations_MProcess_State_for_States")
+    wparams = [p for p in h.params if "weight" in p]
+    con = "branch weight x renormalised conditional probabilities"
+    if not wparams:
+        rep.undecided("O4", h, con, "no weight parameter")
+        return
+    w = wparams[0]
+    cs = cases(h)
+    if not cs:
+        rep.undecided("O4", h, con, "too many paths")
+        return
+    n = 0
+    for c in returning(cs):
+        v = c.value
+        if not isinstance(v, ast.Tuple):
+            continue
+        for e in v.elts:
+            if not any(isinstance(x, ast.Name) and x.id == w for x in ast.walk(e)):
+                continue
+            n += 1
+            # outermost operation: the weighting, or a normalisation of something already weighted?
+            def weighted_top(x):
+                if isinstance(x, (ast.ListComp, ast.GeneratorExp)):
+                    return any(isinstance(y, ast.Name) and y.id == w for y in ast.walk(x.elt))
+                if isinstance(x, ast.BinOp) and isinstance(x.op, ast.Mult):
+                    return (isinstance(x.left, ast.Name) and x.left.id == w) or (isinstance(x.right, ast.Name) and x.right.id == w)
+                if isinstance(x, ast.Call) and dotted(x.func) in ("list", "np.array", "np.asarray", "tuple") and x.args:
+                    return weighted_top(x.args[0])
+                return False
+            norm_top = isinstance(e, ast.BinOp) and isinstance(e.op, ast.Div) and isinstance(e.right, ast.Call) and (dotted(e.right.func) or "").split(".")[-1] == "sum"
+            g = " and ".join(("" if pol else "not ") + t for t, pol, _ in c.guards) or "always"
+            if norm_top and any(isinstance(x, ast.Name) and x.id == w for x in ast.walk(e.left)):
+                rep.violation("O4", h, con + " [%s]" % g[:60], "the returned probabilities are <weighted list> / sum(<weighted list>): after a truncation the branch "
+                              "sums to 1 instead of to its weight `%s`, so the joint distribution of the ensemble is rescaled" % w, node=c.ret_node)
+            elif weighted_top(e):
+                rep.holds("O4", h, con + " [%s]" % g[:60], "weight applied last", node=c.ret_node)
+            else:
+                rep.undecided("O4", h, con + " [%s]" % g[:60], "returned probabilities `%s` are outside the recognised forms" % unparse(e)[:80])
+    if n == 0:
+        rep.undecided("O4", h, con, "no returned value depends on the weight")
 
 
 def _s2_eigenspace(ctx, rep, g):
